@@ -1,5 +1,1033 @@
-import GnpyModel.Scalar
-/- model file Yang (see DESIGN.md §2) -/
-namespace Gnpy
+import GnpyModel.Json
+import GnpyModel.Round
+/-
+Legacy <-> YANG converters of gnpy/tools/convert_legacy_yang.py and gnpy/tools/yang_convert_utils.py
+(C18), transliterated on the JSON tree of Json.lean.  Python mutates dicts in place; here every
+function returns the new tree, with the same key order Python's dict would have (`Dict.set` keeps the
+position of an existing key and appends a new one, `Dict.erase` is `pop`).
+Errors raised by the converters themselves (KeyError, IndexError, ValueError, ...) are returned as
+`Except` values with the same kind; libyang validation is NOT modelled (it is the generator's oracle).
+-/
+namespace Gnpy.Yang
+open Gnpy
 
-end Gnpy
+/-- gnpy/yang/precision_dict.py (compared with the real dict on every run) -/
+def precisionDict : List (String × Int) := [
+  ("contact", -1), ("date", -1), ("description", -1), ("module", -1),
+  ("organization", -1), ("f_min", 1), ("f_max", 1), ("length", 6),
+  ("loss_coef", 6), ("pmd_coef", 18), ("frequency", 1), ("freq", 2),
+  ("ref_frequency", 1), ("ref_wavelength", 12), ("g0", 14), ("loss_coef_value", 16),
+  ("position", 6), ("reference_frequency", 1), ("att_in", 2), ("con_in", 2),
+  ("con_out", 2), ("temperature", 2), ("power", 9), ("gain_target", 6),
+  ("tilt_target", 6), ("out_voa", 2), ("in_voa", 2), ("delta_p", 6),
+  ("spacing", 2), ("target_pch_out_db", 2), ("target_psd_out_mWperGHz", 10), ("target_out_mWperSlotWidth", 10),
+  ("per_degree_pch_out_db", 2), ("per_degree_psd_out_mWperGHz", 10), ("per_degree_psd_out_mWperSlotWidth", 10), ("number-of-channels", 0),
+  ("loss", 2), ("city", -1), ("region", -1), ("latitude", 6),
+  ("longitude", 6), ("length_units", -1), ("propagation_direction", -1), ("type_variety", -1),
+  ("degree_uid", -1), ("preamp_variety_list", -1), ("booster_variety_list", -1), ("from_degree", -1),
+  ("to_degree", -1), ("impairment_id", 0), ("variety_list", -1), ("uid", -1),
+  ("type", -1), ("from_node", -1), ("to_node", -1), ("network_name", -1),
+  ("output-power", 8), ("tx_power", 5), ("path_bandwidth", 1), ("accumulative-value", 8),
+  ("N", 0), ("M", 0), ("trx_mode", -1), ("max-nb-of-channel", 0),
+  ("technology", -1), ("trx_type", -1), ("transponder-type", -1), ("transponder-mode", -1),
+  ("explicit-route-usage", -1), ("disjointness", -1), ("index", 0), ("node-id", -1),
+  ("link-tp-id", -1), ("hop-type", -1), ("source", -1), ("destination", -1),
+  ("src-tp-id", -1), ("dst-tp-id", -1), ("synchronization-id", -1), ("relaxable", -1),
+  ("request-id-number", -1), ("request-id", -1), ("bidirectional", -1), ("metric-type", -1),
+  ("response-id", -1), ("no-path", -1), ("result_spatial_resolution", 3), ("solver_spatial_resolution", 3),
+  ("dispersion_tolerance", 1), ("phase_shift_tolerance", 1), ("flag", -1), ("order", 0),
+  ("method", -1), ("computed_channels", 0), ("computed_number_of_channels", 0), ("nf_min", 2),
+  ("nf_max", 2), ("nf0", 2), ("nf_coef", 10), ("coef_order", 0),
+  ("gain_flatmax", 2), ("gain_min", 2), ("extended_gain_range", 2), ("p_max", 2),
+  ("dispersion", 8), ("dispersion_slope", 11), ("gamma", 8), ("effective_area", 14),
+  ("min_value", 2), ("max_value", 2), ("step", 2), ("lower-frequency", 2),
+  ("upper-frequency", 2), ("cr", 9), ("frequency_offset", 2), ("max_length", 2),
+  ("max_loss", 2), ("max_fiber_lineic_loss_for_raman", 2), ("target_extended_gain", 2), ("padding", 2),
+  ("EOL", 2), ("span_loss_ref", 2), ("power_slope", 2), ("voa_margin", 2),
+  ("voa_step", 2), ("add_drop_osnr", 2), ("pmd", 15), ("pdl", 2),
+  ("baud_rate", 2), ("power_dbm", 2), ("roll_off", 2), ("tx_osnr", 2),
+  ("tx_power_dbm", 2), ("sys_margins", 2), ("min", 2), ("max", 2),
+  ("OSNR", 2), ("min_spacing", 2), ("bit_rate", 2), ("cost", 2),
+  ("chromatic_dispersion", 2), ("penalty_value", 2), ("equalization_offset_db", 4), ("preamp_variety", -1),
+  ("booster_variety", -1), ("amplifiers", -1), ("advanced_config_from_json", -1), ("default_config_from_json", -1),
+  ("allowed_for_design", -1), ("type_def", -1), ("raman", -1), ("out_voa_auto", -1),
+  ("in_voa_auto", -1), ("other_name", -1), ("power_mode", -1), ("roadm-path-impairments-id", 0),
+  ("use_si_channel_count_for_design", -1), ("comment", -1), ("format", -1), ("roadm-osnr", 2),
+  ("nf_ripple", 18), ("dgt", 18), ("gain_ripple", 18), ("slot_width", 2),
+  ("delta_pdb", 2), ("label", -1), ("roadm-pmd", 8), ("otsi-carrier-frequency", 9),
+  ("oms-element-uid", -1), ("configured-mode", -1), ("type-variety", -1), ("frequency-range-id", 0),
+  ("stage-order", 0), ("name", -1), ("nominal-carrier-power", 2), ("nominal-psd", 16),
+  ("actual-gain", 2), ("in-voa", 2), ("out-voa", 2), ("tilt-target", 2),
+  ("total-output-power", 2), ("raman-direction", -1), ("pump-id", 0), ("delta-power", 2),
+  ("loss-coef", 2), ("total-loss", 2), ("conn-in", 2), ("conn-out", 2),
+  ("roadm-cd", 5), ("roadm-pdl", 2), ("roadm-inband-crosstalk", 2), ("roadm-maxloss", 2),
+  ("roadm-pmax", 2), ("roadm-noise-figure", 5), ("roadm-minloss", 2), ("roadm-typloss", 2),
+  ("roadm-pmin", 2), ("roadm-ptyp", 2), ("generalized-snr", 2), ("equalization-mode", -1),
+  ("otsi-carrier-id", 0), ("e2e-mc-path-id", 0), ("otsi-group-ref", -1), ("media-channel-id", 0),
+  ("otsi-carrier-ref", -1), ("e2e-mc-path-ref", -1), ("elt-index", 0), ("link-ref", -1),
+  ("oms-element-ref", -1), ("otsi-ref", -1), ("otsi-group-id", -1), ("explicit-transceiver-mode-id", -1),
+  ("transponder-id", 0), ("termination-type-capabilities", -1), ("transceiver-id", 0), ("explicit-transceiver-mode-ref", -1),
+  ("configured-termination-type", -1), ("group-id", 0), ("regen-metric", 0), ("transponder-ref", -1),
+  ("transceiver-ref", -1), ("protection-type", -1), ("inter-layer-sequence-number", 0), ("roadm-path-impairments", -1),
+  ("ltp-ref", -1), ("add-path-impairments", -1), ("drop-path-impairments", -1), ("ttp-transponder-ref", -1),
+  ("ttp-transceiver-ref", -1), ("is-allowed", -1), ("penalty-value", 2), ("max-chromatic-dispersion", 2),
+  ("cd-value", 2), ("max-polarization-mode-dispersion", 2), ("pmd-value", 2), ("available-baud-rate", 1),
+  ("roll-off", 4), ("fec-code-rate", 8), ("fec-threshold", 8), ("polarization-skew", 2),
+  ("dwdm-n", -1), ("cwdm-n", -1), ("wson-dwdm-channel-spacing", -1), ("wson-cwdm-channel-spacing", -1),
+  ("subcarrier-dwdm-n", 0), ("slot-width-granularity", -1), ("min-slot-width-factor", 0), ("max-slot-width-factor", 0),
+  ("grid-type", -1), ("priority", 0), ("flexi-n", 0), ("flexi-m", 0),
+  ("flexi-grid-channel-spacing", -1), ("flexi-ncfg", -1), ("flexi-n-step", 0), ("mode-id", -1),
+  ("supported-application-codes", -1), ("supported-organizational-modes", -1), ("standard-mode", -1), ("operational-mode", -1),
+  ("organization-identifier", -1), ("line-coding-bitrate", -1), ("bitrate", 0), ("max-diff-group-delay", 2),
+  ("max-polarization-dependant-loss", 2), ("pdl-value", 2), ("available-modulation-type", -1), ("min-OSNR", 2),
+  ("rx-ref-channel-power", 2), ("rx-channel-power-value", 2), ("min-Q-factor", 2), ("min-carrier-spacing", 6),
+  ("available-fec-type", -1), ("in-band-osnr", 2), ("out-of-band-osnr", 2), ("tx-polarization-power-difference", 2),
+  ("min-central-frequency", 9), ("max-central-frequency", 9), ("transceiver-tunability", 6), ("tx-channel-power-min", 2),
+  ("tx-channel-power-max", 2), ("rx-channel-power-min", 2), ("rx-channel-power-max", 2), ("rx-total-power-max", 2),
+  ("tx-channel-power", 2), ("rx-channel-power", 2), ("rx-total-power", 2), ("wavelength-assignment", -1),
+  ("gsnr-extra-margin", 2), ("estimated-gsnr", 2), ("estimated-eol-gsnr", 2), ("estimated-lowest-gsnr", 2)]
+
+/-- `precision.get(k)` -/
+def precision? (k : String) : Option Int := precisionDict.lookup k
+
+/-- `precision.get(k, 2)` -/
+def precisionD (k : String) : Int := (precision? k).getD 2
+
+/-! ### values -/
+
+/-- bit pattern of `float(i)` (exact for |i| < 2^53) -/
+def intToFloatBits (i : Int) : Nat :=
+  match Round.nearestDyadic i.natAbs 1 with
+  | some (m, e) => Round.encode (i < 0) m e
+  | none => (if i < 0 then 2 ^ 63 else 0) + 2047 * 2 ^ 52
+
+/-- `str(PrettyFloat(x, fd))` for the double with bit pattern `bits`.
+    `reprs` is the table bits ↦ Python `repr` supplied by the harness; it is consulted only on the
+    ≥ 17-digit branch and only after checking that the text parses back to the same double. -/
+def prettyStr (reprs : List (Nat × String)) (bits : Nat) (fd : Int) : PyR String :=
+  if fd < 0 ∨ 18 < fd then valueError s!"Fraction digit {fd} not handled" else
+  let d := fd.toNat
+  if d < 17 then
+    match Round.fmtBits bits d with
+    | some s => pure s
+    | none => valueError "non-finite"
+  else
+    match reprs.lookup bits with
+    | none => .error "model:repr-missing"
+    | some r =>
+      if !Round.parsesBackTo r bits then .error "model:repr-does-not-parse-back" else
+      if r.toList.any (fun c => c == 'e') || !(r.toList.any (fun c => c == '.')) then
+        match Round.fmtBits bits d with
+        | some s => pure s
+        | none => valueError "non-finite"
+      else pure (Round.fmtRepr r d)
+
+mutual
+/-- `convert_dict(data, fraction_digit)` -/
+def convertDict (reprs : List (Nat × String)) (fd : Int) : J → PyR J
+  | .obj l => do return .obj (← convertDictO reprs l)
+  | .arr l => do return .arr (← convertDictL reprs fd l)
+  | .bool b => pure (.bool b)
+  | .int i =>
+    if fd > 0 then pure (.str (Round.fmtInt i fd.toNat))
+    else if fd < 0 then pure (.flt (intToFloatBits i))
+    else pure (.int i)
+  | .flt b => do return .str (← prettyStr reprs b fd)
+  | j => pure j
+def convertDictL (reprs : List (Nat × String)) (fd : Int) : List J → PyR (List J)
+  | [] => pure []
+  | x :: xs => do
+    let y ← convertDict reprs fd x
+    let ys ← convertDictL reprs fd xs
+    return y :: ys
+def convertDictO (reprs : List (Nat × String)) : List (String × J) → PyR (List (String × J))
+  | [] => pure []
+  | (k, v) :: xs => do
+    let y ← convertDict reprs (precisionD k) v
+    let ys ← convertDictO reprs xs
+    return (k, y) :: ys
+end
+
+/-- Python `float(s)` -/
+def pyFloat (s : String) : PyR J :=
+  match Round.parseFloatBits s with
+  | some b => pure (.flt b)
+  | none => valueError s!"could not convert string to float: {s}"
+
+/-- Python `int(s)` -/
+def pyInt (s : String) : PyR J :=
+  match Round.parseInt s with
+  | some i => pure (.int i)
+  | none => valueError s!"invalid literal for int(): {s}"
+
+mutual
+/-- `convert_back(data, fraction_digit)` -/
+def convertBack (fd : Option Int) : J → PyR J
+  | .obj l => do return .obj (← convertBackO l)
+  | .arr l => do return .arr (← convertBackL fd l)
+  | .str s =>
+    match fd with
+    | none => pure (.str s)
+    | some d => if d > 0 then pyFloat s else if d < 0 then pure (.str s) else pyInt s
+  | j => pure j
+def convertBackL (fd : Option Int) : List J → PyR (List J)
+  | [] => pure []
+  | x :: xs => do
+    let y ← match x, fd with
+      | .str s, some d => if d = -1 then convertBack fd x else pyFloat s
+      | _, _ => convertBack fd x
+    let ys ← convertBackL fd xs
+    return y :: ys
+def convertBackO : List (String × J) → PyR (List (String × J))
+  | [] => pure []
+  | (k, v) :: xs => do
+    let y ← convertBack (precision? k) v
+    let ys ← convertBackO xs
+    return (k, y) :: ys
+end
+
+mutual
+/-- `convert_none_to_empty` -/
+def noneToEmpty : J → J
+  | .null => .arr [.null]
+  | .arr l => if J.beqL l [.null] then .arr l else .arr (noneToEmptyL l)
+  | .obj l => .obj (noneToEmptyO l)
+  | j => j
+def noneToEmptyL : List J → List J
+  | [] => []
+  | x :: xs => noneToEmpty x :: noneToEmptyL xs
+def noneToEmptyO : List (String × J) → List (String × J)
+  | [] => []
+  | (k, v) :: xs => (k, noneToEmpty v) :: noneToEmptyO xs
+end
+
+mutual
+/-- `convert_empty_to_none` -/
+def emptyToNone : J → J
+  | .arr l => if J.beqL l [.null] then .null else .arr (emptyToNoneL l)
+  | .obj l => .obj (emptyToNoneO l)
+  | j => j
+def emptyToNoneL : List J → List J
+  | [] => []
+  | x :: xs => emptyToNone x :: emptyToNoneL xs
+def emptyToNoneO : List (String × J) → List (String × J)
+  | [] => []
+  | (k, v) :: xs => (k, emptyToNone v) :: emptyToNoneO xs
+end
+
+mutual
+/-- well-formedness of a legacy document w.r.t. nulls: no list `[null]` anywhere (that is the YANG
+    spelling of null, which `convert_none_to_empty` leaves alone) -/
+def noBoxedNull : J → Bool
+  | .arr l => !(J.beqL l [.null]) && noBoxedNullL l
+  | .obj l => noBoxedNullO l
+  | _ => true
+def noBoxedNullL : List J → Bool
+  | [] => true
+  | x :: xs => noBoxedNull x && noBoxedNullL xs
+def noBoxedNullO : List (String × J) → Bool
+  | [] => true
+  | (_, v) :: xs => noBoxedNull v && noBoxedNullO xs
+end
+
+mutual
+/-- a YANG-form tree: no bare null (every null is spelled `[null]`) -/
+def noBareNull : J → Bool
+  | .null => false
+  | .arr l => J.beqL l [.null] || noBareNullL l
+  | .obj l => noBareNullO l
+  | _ => true
+def noBareNullL : List J → Bool
+  | [] => true
+  | x :: xs => noBareNull x && noBareNullL xs
+def noBareNullO : List (String × J) → Bool
+  | [] => true
+  | (_, v) :: xs => noBareNull v && noBareNullO xs
+end
+
+mutual
+/-- no binary float left in the tree (what `convert_dict` produces when no integer sits under a
+    string-typed key) -/
+def noFlt : J → Bool
+  | .flt _ => false
+  | .arr l => noFltL l
+  | .obj l => noFltO l
+  | _ => true
+def noFltL : List J → Bool
+  | [] => true
+  | x :: xs => noFlt x && noFltL xs
+def noFltO : List (String × J) → Bool
+  | [] => true
+  | (_, v) :: xs => noFlt v && noFltO xs
+end
+
+/-- `s.split(ns)[1]` when `ns in s` -/
+def stripNs (ns s : String) : String :=
+  match s.splitOn ns with
+  | _ :: b :: _ => b
+  | _ => s
+
+mutual
+/-- `remove_namespace_context` -/
+def removeNamespace (ns : String) : J → J
+  | .str s => .str (stripNs ns s)
+  | .arr l => .arr (removeNamespaceL ns l)
+  | .obj l => .obj (removeNamespaceO ns l)
+  | j => j
+def removeNamespaceL (ns : String) : List J → List J
+  | [] => []
+  | x :: xs => removeNamespace ns x :: removeNamespaceL ns xs
+def removeNamespaceO (ns : String) : List (String × J) → List (String × J)
+  | [] => []
+  | (k, v) :: xs => (k, removeNamespace ns v) :: removeNamespaceO ns xs
+end
+
+/-! ### small Python idioms -/
+
+def asObj : J → PyR Dict
+  | .obj l => pure l
+  | _ => typeError "dict expected"
+
+def asArr : J → PyR (List J)
+  | .arr l => pure l
+  | _ => typeError "list expected"
+
+/-- `x[i]` on a list -/
+def idx (l : List J) (i : Nat) : PyR J :=
+  match l[i]? with
+  | some v => pure v
+  | none => .error "IndexError:list index out of range"
+
+/-- `k in x` where x is a dict (key test) or a list (element test against a string) -/
+def pyIn (k : String) : J → Bool
+  | .obj l => Dict.has l k
+  | .arr l => l.any (fun e => e == J.str k)
+  | .str s => (s.splitOn k).length > 1
+  | _ => false
+
+/-- `for x in d[key]: f(x)` with every x a dict, written back in place -/
+def forEachIn (d : Dict) (key : String) (f : Dict → PyR Dict) : PyR Dict := do
+  let l ← asArr (← d.get key)
+  let l' ← l.mapM (fun e => do return J.obj (← f (← asObj e)))
+  return d.set key (.arr l')
+
+/-- `reorder_keys(data_list, key)` on one item -/
+def reorderKey (key : String) (item : Dict) : Dict :=
+  match item.get? key with
+  | none => item
+  | some .null => item.erase key
+  | some v => (key, v) :: item.erase key
+
+def reorderKeys (key : String) (l : J) : PyR J := do
+  let items ← asArr l
+  return .arr (← items.mapM (fun e => do return J.obj (reorderKey key (← asObj e))))
+
+/-- `zip(a, b)` into a list of two-key dicts -/
+def zipDicts (ka kb : String) (a b : List J) : List J :=
+  (a.zip b).map (fun p => J.obj [(ka, p.1), (kb, p.2)])
+
+/-! ### topology -/
+
+def eqTypes : List String :=
+  ["per_degree_pch_out_db", "per_degree_psd_out_mWperGHz", "per_degree_psd_out_mWperSlotWidth"]
+
+/-- `[{degree_uid: d, <kind>: v} for d, v in targets.items()]` -/
+def targetsOf (kind : String) (targets : Dict) : List J :=
+  targets.map (fun dv => J.obj [("degree_uid", .str dv.1), (kind, dv.2)])
+
+/-- `targets = params.pop(kind, None)` and the list it contributes to `new_targets` -/
+def popTargets (kind : String) (p : Dict) : PyR (Dict × List J) :=
+  match p.get? kind with
+  | none => pure (p, [])
+  | some t =>
+    if !t.truthy then pure (p.erase kind, [])
+    else match t with
+      | .obj targets => pure (p.erase kind, targetsOf kind targets)
+      | _ => attributeError "items"
+
+/-- the body of `convert_degree` for one ROADM `params` dict -/
+def degreeToYang (params : Dict) : PyR Dict := do
+  let (p1, t1) ← popTargets "per_degree_pch_out_db" params
+  let (p2, t2) ← popTargets "per_degree_psd_out_mWperGHz" p1
+  let (p3, t3) ← popTargets "per_degree_psd_out_mWperSlotWidth" p2
+  let newT := t1 ++ t2 ++ t3
+  if newT.isEmpty then return p3 else return p3.set "per_degree_power_targets" (.arr newT)
+
+def isRoadmWithParams (elem : Dict) : PyR Bool := do
+  let t ← elem.get "type"
+  return t == .str "Roadm" && elem.has "params"
+
+/-- apply `f` to `elem['params']` (a dict) -/
+def onParams (elem : Dict) (f : Dict → PyR Dict) : PyR Dict := do
+  let p ← asObj (← elem.get "params")
+  return elem.set "params" (.obj (← f p))
+
+/-- `convert_degree` -/
+def convertDegree (doc : Dict) : PyR Dict :=
+  forEachIn doc "elements" (fun elem => do
+    if ← isRoadmWithParams elem then onParams elem degreeToYang else pure elem)
+
+/-- `elem[PARAMS_KEY][eq_type][degree_uid] = target[eq_type]` (creating the dict when needed) -/
+def setDegree (params : Dict) (kind deg : String) (v : J) : PyR Dict :=
+  match params.get? kind with
+  | none => pure (params.set kind (.obj [(deg, v)]))
+  | some (.obj cur) => pure (params.set kind (.obj (Dict.set cur deg v)))
+  | some _ => typeError "per-degree entry is not a dict"
+
+/-- one equalisation type of one target in `process_power_targets` -/
+def applyKind (target : Dict) (deg kind : String) (params : Dict) : PyR Dict :=
+  match target.get? kind with
+  | none => pure params
+  | some v => setDegree params kind deg v
+
+/-- `process_power_targets` for one target -/
+def applyTarget (params : Dict) (target : Dict) : PyR Dict := do
+  let deg ← target.get "degree_uid"
+  let degS ← match deg with
+    | .str s => pure s
+    | _ => typeError "unhashable or non-string degree uid"
+  let p1 ← applyKind target degS "per_degree_pch_out_db" params
+  let p2 ← applyKind target degS "per_degree_psd_out_mWperGHz" p1
+  applyKind target degS "per_degree_psd_out_mWperSlotWidth" p2
+
+/-- `process_power_targets` -/
+def applyTargets : List J → Dict → PyR Dict
+  | [], p => pure p
+  | t :: ts, p => do
+    let p' ← applyTarget p (← asObj t)
+    applyTargets ts p'
+
+/-- the body of `convert_back_degree` for one ROADM `params` dict -/
+def degreeToLegacy (params : Dict) : PyR Dict := do
+  match params.get? "per_degree_power_targets" with
+  | none => return params
+  | some pt =>
+    let p := params.erase "per_degree_power_targets"
+    if !pt.truthy then return p
+    applyTargets (← asArr pt) p
+
+/-- `convert_back_degree` -/
+def convertBackDegree (doc : Dict) : PyR Dict :=
+  forEachIn doc "elements" (fun elem => do
+    if ← isRoadmWithParams elem then onParams elem degreeToLegacy else pure elem)
+
+/-- body of `convert_design_band` -/
+def designBandToYang (params : Dict) : PyR Dict := do
+  match params.get? "per_degree_design_bands" with
+  | none => return params
+  | some t =>
+    let p := params.erase "per_degree_design_bands"
+    if !t.truthy then return p
+    match t with
+    | .obj targets =>
+      let newT := targets.map (fun dv => J.obj [("degree_uid", .str dv.1), ("design_bands", dv.2)])
+      return p.set "per_degree_design_bands_targets" (.arr newT)
+    | _ => attributeError "items"
+
+def convertDesignBand (doc : Dict) : PyR Dict :=
+  forEachIn doc "elements" (fun elem => do
+    if ← isRoadmWithParams elem then onParams elem designBandToYang else pure elem)
+
+/-- `design_bands[target[DEGREE_KEY]] = target['design_bands']` for one target -/
+def bandOf (tj : J) : PyR (String × J) := do
+  let tg ← asObj tj
+  match ← tg.get "degree_uid" with
+  | .str s => return (s, ← tg.get "design_bands")
+  | _ => typeError "non-string degree uid"
+
+/-- the `for target in targets` loop of `convert_back_design_band` -/
+def collectBands : List J → Dict → PyR Dict
+  | [], acc => pure acc
+  | tj :: ts, acc => do
+    let (deg, b) ← bandOf tj
+    collectBands ts (acc.set deg b)
+
+/-- body of `convert_back_design_band` -/
+def designBandToLegacy (params : Dict) : PyR Dict := do
+  match params.get? "per_degree_design_bands_targets" with
+  | none => return params
+  | some t =>
+    let p := params.erase "per_degree_design_bands_targets"
+    if !t.truthy then return p
+    let bands ← collectBands (← asArr t) []
+    if bands.isEmpty then return p else return p.set "per_degree_design_bands" (.obj bands)
+
+def convertBackDesignBand (doc : Dict) : PyR Dict :=
+  forEachIn doc "elements" (fun elem => do
+    if ← isRoadmWithParams elem then onParams elem designBandToLegacy else pure elem)
+
+/-- does `elem` have a dict `params`? (`PARAMS_KEY in elem`) -/
+def withParams (elem : Dict) (f : Dict → PyR Dict) : PyR Dict :=
+  if elem.has "params" then onParams elem f else pure elem
+
+/-- body of `convert_loss_coeff_list` -/
+def lossCoefToYang (params : Dict) : PyR Dict := do
+  match params.get? "loss_coef" with
+  | some (.obj lc) =>
+    let p := params.erase "loss_coef"
+    let vals := (Dict.get? lc "value").getD .null
+    let freqs := (Dict.get? lc "frequency").getD .null
+    if !vals.truthy then return p
+    let vl ← asArr vals
+    let fl ← match freqs with
+      | .arr l => pure l
+      | _ => typeError "zip argument is not iterable"
+    return p.set "loss_coef_per_frequency" (.arr (zipDicts "frequency" "loss_coef_value" fl vl))
+  | _ => return params
+
+def convertLossCoefList (doc : Dict) : PyR Dict :=
+  forEachIn doc "elements" (fun elem => withParams elem lossCoefToYang)
+
+/-- `[item[k] for item in l]` -/
+def column (k : String) : List J → PyR (List J)
+  | [] => pure []
+  | it :: rest => do
+    let v ← (← asObj it).get k
+    let vs ← column k rest
+    return v :: vs
+
+/-- body of `convert_back_loss_coeff_list` -/
+def lossCoefToLegacy (params : Dict) : PyR Dict := do
+  match params.get? "loss_coef_per_frequency" with
+  | none => return params
+  | some l =>
+    let p := params.erase "loss_coef_per_frequency"
+    if !l.truthy then return p
+    let items ← asArr l
+    let fr ← column "frequency" items
+    let va ← column "loss_coef_value" items
+    return p.set "loss_coef" (.obj [("frequency", .arr fr), ("value", .arr va)])
+
+def convertBackLossCoefList (doc : Dict) : PyR Dict :=
+  forEachIn doc "elements" (fun elem => withParams elem lossCoefToLegacy)
+
+/-- `d.pop(k, [])` value -/
+def popD (d : Dict) (k : String) : J := (d.get? k).getD (.arr [])
+
+/-- body of `convert_raman_coef` -/
+def ramanCoefToYang (params : Dict) : PyR Dict := do
+  match params.get? "raman_coefficient" with
+  | some rcj =>
+    if !pyIn "g0" rcj then return params
+    let rc ← asObj rcj
+    let p := params.erase "raman_coefficient"
+    let g0 := popD rc "g0"
+    let fo := popD rc "frequency_offset"
+    if !fo.truthy then return p
+    let rf ← (rc.erase "g0" |>.erase "frequency_offset").get "reference_frequency"
+    let fol ← asArr fo
+    let g0l ← asArr g0
+    return p.set "raman_coefficient" (.obj [("reference_frequency", rf),
+      ("g0_per_frequency", .arr (zipDicts "frequency_offset" "g0" fol g0l))])
+  | none => return params
+
+def convertRamanCoef (doc : Dict) : PyR Dict :=
+  forEachIn doc "elements" (fun elem => withParams elem ramanCoefToYang)
+
+/-- body of `convert_back_raman_coef` -/
+def ramanCoefToLegacy (params : Dict) : PyR Dict := do
+  match params.get? "raman_coefficient" with
+  | some rcj =>
+    if !pyIn "g0_per_frequency" rcj then return params
+    let rc ← asObj rcj
+    let p := params.erase "raman_coefficient"
+    let items ← asArr (popD rc "g0_per_frequency")
+    let g0l ← column "g0" items
+    let fol ← column "frequency_offset" items
+    if fol.isEmpty then return p
+    let rf ← (rc.erase "g0_per_frequency").get "reference_frequency"
+    return p.set "raman_coefficient" (.obj [("reference_frequency", rf), ("g0", .arr g0l),
+      ("frequency_offset", .arr fol)])
+  | none => return params
+
+def convertBackRamanCoef (doc : Dict) : PyR Dict :=
+  forEachIn doc "elements" (fun elem => withParams elem ramanCoefToLegacy)
+
+/-- `reorder_lumped_losses_objects` -/
+def reorderLumpedLosses (doc : Dict) : PyR Dict :=
+  forEachIn doc "elements" (fun elem => do
+    match elem.get? "params" with
+    | some pj =>
+      if pyIn "lumped_losses" pj then
+        let p ← asObj pj
+        let l ← reorderKeys "position" (← p.get "lumped_losses")
+        return elem.set "params" (.obj (p.set "lumped_losses" l))
+      else return elem
+    | none => return elem)
+
+/-- `reorder_raman_pumps` -/
+def reorderRamanPumps (doc : Dict) : PyR Dict :=
+  forEachIn doc "elements" (fun elem => do
+    match elem.get? "operational" with
+    | some oj =>
+      if pyIn "raman_pumps" oj then
+        let o ← asObj oj
+        let l ← reorderKeys "frequency" (← o.get "raman_pumps")
+        return elem.set "operational" (.obj (o.set "raman_pumps" l))
+      else return elem
+    | none => return elem)
+
+/-- `remove_null_region_city` -/
+def removeNullRegionCity (doc : Dict) : PyR Dict :=
+  forEachIn doc "elements" (fun elem => do
+    match elem.get? "metadata" with
+    | some mj =>
+      if pyIn "location" mj then
+        let m ← asObj mj
+        let locj ← m.get "location"
+        if !(pyIn "city" locj || pyIn "region" locj) then return elem
+        let loc ← asObj locj
+        let fix (l : Dict) (name : String) : Dict :=
+          match l.get? name with
+          | some .null => l.set name (.str "")
+          | _ => l
+        let loc := fix (fix loc "city") "region"
+        return elem.set "metadata" (.obj (m.set "location" (.obj loc)))
+      else return elem
+    | none => return elem)
+
+/-! ### equipment -/
+
+/-- one branch of `convert_raman_efficiency` -/
+def ramanEffToYangWith (fe : Dict) (re : Dict) (k : String) : PyR Dict := do
+  let p := fe.erase "raman_efficiency"
+  let vl := popD re k
+  let fo := popD re "frequency_offset"
+  if !fo.truthy then return p
+  let fol ← asArr fo
+  let vll ← asArr vl
+  return p.set "raman_efficiency" (.arr (zipDicts "frequency_offset" k fol vll))
+
+def ramanEffToYang (fe : Dict) : PyR Dict := do
+  match fe.get? "raman_efficiency" with
+  | none => return fe
+  | some rej =>
+    if pyIn "cr" rej then ramanEffToYangWith fe (← asObj rej) "cr"
+    else if pyIn "g0" rej then ramanEffToYangWith fe (← asObj rej) "g0"
+    else return fe
+
+/-- `for x in d[key]` when `key in d`, else unchanged -/
+def forEachIfPresent (d : Dict) (key : String) (f : Dict → PyR Dict) : PyR Dict :=
+  if d.has key then forEachIn d key f else pure d
+
+/-- `convert_raman_efficiency` BEFORE the repair of F7 (df307dac): the legacy spelling written by
+    `convert_back_raman_efficiency` was not recognised (kept for the `…_fails_old` witness) -/
+def convertRamanEfficiencyOld (doc : Dict) : PyR Dict :=
+  forEachIfPresent doc "RamanFiber" ramanEffToYang
+
+/-- first step of `convert_raman_efficiency` for one entry (repair of F7): an equipment RamanFiber entry
+    that carries the spelling written by `convert_back_raman_efficiency`
+    (`raman_coefficient {g0, frequency_offset}`) is read as `raman_efficiency {cr, frequency_offset}` -/
+def ramanEffAcceptCoef (fe : Dict) : PyR Dict :=
+  match fe.get? "raman_coefficient" with
+  | some rcj =>
+    if !fe.has "raman_efficiency" && pyIn "g0" rcj then do
+      let rc ← asObj rcj
+      return (fe.erase "raman_coefficient").set "raman_efficiency"
+        (.obj [("cr", popD rc "g0"), ("frequency_offset", popD rc "frequency_offset")])
+    else pure fe
+  | none => pure fe
+
+/-- `convert_raman_efficiency` -/
+def convertRamanEfficiency (doc : Dict) : PyR Dict :=
+  forEachIfPresent doc "RamanFiber" (fun fe => do ramanEffToYang (← ramanEffAcceptCoef fe))
+
+/-- `[c[k] for c in l if k in c]` -/
+def columnIf (k : String) (l : List J) : PyR (List J) := do
+  let ds ← l.mapM asObj
+  return ds.filterMap (fun d => d.get? k)
+
+/-- body of `convert_back_raman_efficiency`: the legacy key written back is `raman_coefficient`
+    (`g0` for `cr`), without reference frequency; the loader and `convert_raman_efficiency` accept
+    that spelling since df307dac -/
+def ramanEffToLegacy (fe : Dict) : PyR Dict := do
+  match fe.get? "raman_efficiency" with
+  | some (.arr re) =>
+    let p := fe.erase "raman_efficiency"
+    let crl ← columnIf "cr" re
+    let g0l ← columnIf "g0" re
+    let fol ← column "frequency_offset" re
+    if fol.isEmpty then return p
+    let g0l := if crl.isEmpty then g0l else crl
+    return p.set "raman_coefficient" (.obj [("g0", .arr g0l), ("frequency_offset", .arr fol)])
+  | _ => return fe
+
+def convertBackRamanEfficiency (doc : Dict) : PyR Dict :=
+  forEachIfPresent doc "RamanFiber" ramanEffToLegacy
+
+/-- `convert_range_to_dict` -/
+def rangeToDict (r : J) : PyR J := do
+  let l ← match r with
+    | .arr l => pure l
+    | _ => typeError "not subscriptable"
+  return .obj [("min_value", ← idx l 0), ("max_value", ← idx l 1), ("step", ← idx l 2)]
+
+/-- `process_span_data` / `process_si_data` -/
+def rangeToYang (listKey dictKey : String) (e : Dict) : PyR Dict :=
+  if e.has dictKey then pure e
+  else match e.get? listKey with
+    | none => keyError s!"{listKey} or {dictKey} missing"
+    | some r => do
+      let d ← rangeToDict r
+      return (e.set dictKey d).erase listKey
+
+/-- `convert_delta_power_range` -/
+def convertDeltaPowerRange (doc : Dict) : PyR Dict := do
+  let d ← forEachIfPresent doc "Span" (rangeToYang "delta_power_range_db" "delta_power_range_dict_db")
+  forEachIfPresent d "SI" (rangeToYang "power_range_db" "power_range_dict_db")
+
+/-- dict form back to `[min, max, step]` for one entry -/
+def rangeToLegacy (listKey dictKey : String) (e : Dict) : PyR Dict :=
+  match e.get? dictKey with
+  | none => pure e
+  | some rj => do
+    let r ← asObj rj
+    let l := J.arr [← r.get "min_value", ← r.get "max_value", ← r.get "step"]
+    return (e.set listKey l).erase dictKey
+
+/-- `convert_back_delta_power_range` BEFORE the repair of F6 (f4882f89): only entry 0 of `Span` and of
+    `SI` (kept for the `…_fails_old` witness) -/
+def backRangeFirstOnly (doc : Dict) (key listKey dictKey : String) : PyR Dict :=
+  match doc.get? key with
+  | none => pure doc
+  | some lj => do
+    let l ← asArr lj
+    let first ← asObj (← idx l 0)
+    if first.has dictKey then
+      let first' ← rangeToLegacy listKey dictKey first
+      return doc.set key (.arr (J.obj first' :: l.drop 1))
+    else return doc
+
+def convertBackDeltaPowerRangeOld (doc : Dict) : PyR Dict := do
+  let d ← backRangeFirstOnly doc "Span" "delta_power_range_db" "delta_power_range_dict_db"
+  backRangeFirstOnly d "SI" "power_range_db" "power_range_dict_db"
+
+/-- `convert_back_delta_power_range`: every entry of `Span` and of `SI` -/
+def convertBackDeltaPowerRange (doc : Dict) : PyR Dict := do
+  let d ← forEachIfPresent doc "Span" (rangeToLegacy "delta_power_range_db" "delta_power_range_dict_db")
+  forEachIfPresent d "SI" (rangeToLegacy "power_range_db" "power_range_dict_db")
+
+/-- `[{'coef_order': i, 'nf_coef': c} for i, c in enumerate(l)]` -/
+def enumCoefs (l : List J) : List J :=
+  l.zipIdx.map (fun ci => J.obj [("coef_order", .int ci.2), ("nf_coef", ci.1)])
+
+/-- `convert_nf_coef` / `convert_nf_fit_coef` on one dict and key -/
+def nfCoefToYang (key : String) (e : Dict) : PyR Dict :=
+  match e.get? key with
+  | none => pure e
+  | some cj => do
+    let l ← match cj with
+      | .arr l => pure l
+      | _ => typeError "not subscriptable"
+    let first ← idx l 0
+    if first.isObj then return e
+    return (e.erase key).set key (.arr (enumCoefs l))
+
+/-- insertion of `x` into a list sorted by `coef_order` (stable) -/
+def insertByOrder (x : Int × J) : List (Int × J) → List (Int × J)
+  | [] => [x]
+  | y :: ys => if x.1 < y.1 then x :: y :: ys else y :: insertByOrder x ys
+
+/-- `sorted(l, key=coef_order)` (stable) -/
+def sortByOrder (l : List (Int × J)) : List (Int × J) :=
+  l.foldl (fun acc x => insertByOrder x acc) []
+
+def nfCoefToLegacy (key : String) (e : Dict) : PyR Dict :=
+  match e.get? key with
+  | none => pure e
+  | some cj => do
+    let l ← match cj with
+      | .arr l => pure l
+      | _ => typeError "not subscriptable"
+    let first ← idx l 0
+    if !first.isObj then return e
+    let pairs ← l.mapM (fun c => do
+      let d ← asObj c
+      let o ← match ← d.get "coef_order" with
+        | .int i => pure i
+        | _ => typeError "coef_order is not an int"
+      return (o, J.obj d))
+    let sorted := sortByOrder pairs
+    let vals ← sorted.mapM (fun p => do (← asObj p.2).get "nf_coef")
+    return (e.erase key).set key (.arr vals)
+
+def convertNfCoef (doc : Dict) : PyR Dict := forEachIfPresent doc "Edfa" (nfCoefToYang "nf_coef")
+def convertBackNfCoef (doc : Dict) : PyR Dict := forEachIfPresent doc "Edfa" (nfCoefToLegacy "nf_coef")
+def convertNfFitCoef (doc : Dict) : PyR Dict := nfCoefToYang "nf_fit_coeff" doc
+def convertBackNfFitCoef (doc : Dict) : PyR Dict := nfCoefToLegacy "nf_fit_coeff" doc
+
+/-- `add_missing_default_type_variety`: only the FIRST Roadm entry without a name gets one -/
+def addDefaultFirst : List J → PyR (List J)
+  | [] => pure []
+  | x :: xs => do
+    let d ← asObj x
+    if d.has "type_variety" then return x :: (← addDefaultFirst xs)
+    else return J.obj (("type_variety", .str "default") :: d) :: xs
+
+def addMissingDefaultTypeVariety (doc : Dict) : PyR Dict :=
+  match doc.get? "Roadm" with
+  | none => pure doc
+  | some lj => do return doc.set "Roadm" (.arr (← addDefaultFirst (← asArr lj)))
+
+/-! ### services -/
+
+/-- `reorder_route_objects` -/
+def reorderRouteObjects (doc : Dict) : PyR Dict :=
+  forEachIn doc "path-request" (fun req => do
+    match req.get? "explicit-route-objects" with
+    | none => return req
+    | some ej =>
+      let e ← asObj ej
+      let l ← reorderKeys "index" (← e.get "route-object-include-exclude")
+      return req.set "explicit-route-objects" (.obj (e.set "route-object-include-exclude" l)))
+
+/-- `slot.get(k) is None → slot.pop(k, None)` -/
+def dropIfNone (d : Dict) (k : String) : Dict :=
+  match d.get? k with
+  | none => d
+  | some .null => d.erase k
+  | _ => d
+
+/-- `list.remove(x)`: first element equal to x -/
+def removeFirst (x : J) : List J → List J
+  | [] => []
+  | y :: ys => if y == x then ys else y :: removeFirst x ys
+
+/-- the `for slot in freq_slot:` loop of `remove_union_that_fail`, which removes from the list it
+    iterates over: index `i` walks the live list -/
+def slotLoop : Nat → Nat → List J → PyR (List J)
+  | 0, _, l => pure l
+  | fuel + 1, i, l =>
+    match l[i]? with
+    | none => pure l
+    | some sj => do
+      let s ← asObj sj
+      let s' := dropIfNone (dropIfNone s "N") "M"
+      let l' := l.set i (.obj s')
+      if s'.isEmpty then slotLoop fuel (i + 1) (removeFirst (.obj s') l')
+      else slotLoop fuel (i + 1) l'
+
+def cleanTeBandwidth (te : Dict) : PyR Dict := do
+  let te ← match te.get? "effective-freq-slot" with
+    | none => pure te
+    | some fs =>
+      if !fs.truthy then pure te else do
+        let l ← asArr fs
+        let l' ← slotLoop (l.length + 1) 0 l
+        if l'.isEmpty then pure (te.erase "effective-freq-slot")
+        else pure (te.set "effective-freq-slot" (.arr l'))
+  return dropIfNone (dropIfNone (dropIfNone te "max-nb-of-channel") "trx_mode") "output-power"
+
+/-- `remove_union_that_fail` -/
+def removeUnionThatFail (doc : Dict) : PyR Dict :=
+  forEachIn doc "path-request" (fun req => do
+    let pc ← asObj (← req.get "path-constraints")
+    let te ← asObj (← pc.get "te-bandwidth")
+    let te' ← cleanTeBandwidth te
+    return req.set "path-constraints" (.obj (pc.set "te-bandwidth" (.obj te'))))
+
+/-! ### dispatch -/
+
+def TOPO := "gnpy-network-topology:topology"
+def EQPT := "gnpy-eqpt-config:equipment"
+def SERV := "gnpy-path-computation:services"
+def RESP := "gnpy-path-computation:responses"
+def EDFACFG := "gnpy-edfa-config:edfa-config"
+def SIMP := "gnpy-sim-params:sim-params"
+def SPEC := "gnpy-spectrum:spectrum"
+def API := "gnpy-api:api"
+def eqptTypes := ["Edfa", "Transceiver", "Fiber", "Roadm"]
+def edfaConfigKeys := ["nf_fit_coeff", "nf_ripple", "gain_ripple", "dgt"]
+def simParamsKeys := ["raman_params", "nli_params"]
+
+def hasAny (d : Dict) (ks : List String) : Bool := ks.any (fun k => d.has k)
+
+/-- apply `f` to the dict stored under `key` -/
+def onKey (d : Dict) (key : String) (f : Dict → PyR Dict) : PyR Dict := do
+  let inner ← asObj (← d.get key)
+  return d.set key (.obj (← f inner))
+
+/-- the structural part of `legacy_to_yang` (everything before the final `convert_dict`);
+    `reff` is `convertRamanEfficiency` -/
+def toYangStructWith (reff : Dict → PyR Dict) (d : Dict) : PyR Dict := do
+  if d.has "elements" then
+    let d ← reorderRamanPumps d
+    let d ← reorderLumpedLosses d
+    let d ← removeNullRegionCity d
+    let d ← convertDegree d
+    let d ← convertDesignBand d
+    let d ← convertLossCoefList d
+    let d ← convertRamanCoef d
+    return [(TOPO, .obj d)]
+  else if d.has TOPO then
+    let d ← onKey d TOPO convertDegree
+    let d ← onKey d TOPO convertDesignBand
+    let d ← onKey d TOPO convertLossCoefList
+    onKey d TOPO removeNullRegionCity
+  else if hasAny d eqptTypes then
+    let d ← reff d
+    let d ← convertDeltaPowerRange d
+    let d ← convertNfCoef d
+    let d ← addMissingDefaultTypeVariety d
+    return [(EQPT, .obj d)]
+  else if d.has EQPT then
+    let d ← onKey d EQPT reff
+    let d ← onKey d EQPT convertDeltaPowerRange
+    let d ← onKey d EQPT convertNfCoef
+    onKey d EQPT addMissingDefaultTypeVariety
+  else if d.has "path-request" then
+    let d ← reorderRouteObjects d
+    let d ← removeUnionThatFail d
+    return [(SERV, .obj d)]
+  else if d.has SERV then
+    let d ← onKey d SERV reorderRouteObjects
+    onKey d SERV removeUnionThatFail
+  else if hasAny d edfaConfigKeys then
+    return [(EDFACFG, .obj (← convertNfFitCoef d))]
+  else if d.has EDFACFG then
+    onKey d EDFACFG convertNfFitCoef
+  else if d.has "spectrum" then
+    return [(SPEC, ← d.get "spectrum")]
+  else if hasAny d simParamsKeys then
+    return [(SIMP, .obj d)]
+  else if d.has "response" then
+    return [(RESP, .obj d)]
+  else if d.has API then
+    return [(API, ← d.get API)]
+  else if hasAny d [SPEC, SIMP, RESP] then
+    return d
+  else valueError "Unrecognized type of content (not topology, service or equipment)"
+
+def toYangStruct := toYangStructWith convertRamanEfficiency
+
+/-- `legacy_to_yang` -/
+def legacyToYangWith (reff : Dict → PyR Dict) (reprs : List (Nat × String)) (doc : J) : PyR J := do
+  let d ← asObj (noneToEmpty doc)
+  let s ← toYangStructWith reff d
+  convertDict reprs 2 (.obj s)
+
+def legacyToYang := legacyToYangWith convertRamanEfficiency
+/-- before the repair of F7 -/
+def legacyToYangOld := legacyToYangWith convertRamanEfficiencyOld
+
+/-- the structural part of `yang_to_legacy` (after `convert_empty_to_none` and `convert_back`);
+    `backRange` is `convertBackDeltaPowerRange` -/
+def toLegacyStruct (backRange : Dict → PyR Dict) (d : Dict) : PyR J := do
+  let topo (d : Dict) : PyR J := do
+    let d ← convertBackDegree d
+    let d ← convertBackDesignBand d
+    let d ← convertBackLossCoefList d
+    let d ← convertBackRamanCoef d
+    return removeNamespace "gnpy-network-topology:" (.obj d)
+  let eqpt (d : Dict) : PyR Dict := do
+    let d ← backRange d
+    let d ← convertBackRamanEfficiency d
+    convertBackNfCoef d
+  if d.has "elements" then topo d
+  else if d.has TOPO then topo (← asObj (← d.get TOPO))
+  else if hasAny d eqptTypes then
+    return removeNamespace "gnpy-eqpt-config:" (.obj (← eqpt d))
+  else if d.has EQPT then
+    return removeNamespace "gnpy-eqpt-config:" (.obj (← eqpt (← asObj (← d.get EQPT))))
+  else if hasAny d edfaConfigKeys then
+    return .obj (← convertBackNfFitCoef d)
+  else if d.has EDFACFG then
+    return .obj (← onKey d EDFACFG convertBackNfFitCoef)
+  else if d.has SERV then d.get SERV
+  else if d.has SIMP then d.get SIMP
+  else if d.has SPEC then return .obj [("spectrum", ← d.get SPEC)]
+  else if d.has RESP then d.get RESP
+  else if d.has API then .error "model:api-not-modelled"
+  else if hasAny d (simParamsKeys ++ ["spectrum", "response", "path-request"]) then return .obj d
+  else valueError "Unrecognized type of content (not topology, service or equipment)"
+
+/-- `yang_to_legacy` with libyang validation left out (the harness only sends validated documents);
+    `legacy_to_yang` is still run first, as the code does, so its own errors surface -/
+def yangToLegacyWith (reff : Dict → PyR Dict) (backRange : Dict → PyR Dict) (reprs : List (Nat × String)) (doc : J) :
+    PyR J := do
+  let _ ← legacyToYangWith reff reprs doc
+  let j ← convertBack none (emptyToNone doc)
+  toLegacyStruct backRange (← asObj j)
+
+def yangToLegacy := yangToLegacyWith convertRamanEfficiency convertBackDeltaPowerRange
+/-- the converter before the repairs of F6 and F7 -/
+def yangToLegacyOld := yangToLegacyWith convertRamanEfficiencyOld convertBackDeltaPowerRangeOld
+
+/-! ### the Raman coefficient a library fibre entry ends up with (`json_io.Fiber.__init__`) -/
+
+/-- `json_io.Fiber.__init__` since df307dac: `raman_efficiency {cr, frequency_offset}` becomes
+    `{frequency_offset, g0 := cr, reference_frequency := default}`; the spelling written by
+    `yang_to_legacy` (`raman_coefficient {g0, frequency_offset}`) is accepted too and receives the
+    default reference frequency -/
+def fiberRaman (dfltRef : J) (entry : Dict) : Option Dict :=
+  match entry.get? "raman_efficiency" with
+  | some (.obj re) =>
+    some (((Dict.erase re "cr").set "g0" ((Dict.get? re "cr").getD .null)).set "reference_frequency" dfltRef)
+  | _ =>
+    match entry.get? "raman_coefficient" with
+    | some (.obj rc) => some (if Dict.has rc "reference_frequency" then rc else Dict.set rc "reference_frequency" dfltRef)
+    | _ => none
+
+/-- the loader before df307dac read `raman_efficiency` only -/
+def fiberRamanOld (dfltRef : J) (entry : Dict) : Option Dict :=
+  match entry.get? "raman_efficiency" with
+  | some (.obj re) =>
+    some (((Dict.erase re "cr").set "g0" ((Dict.get? re "cr").getD .null)).set "reference_frequency" dfltRef)
+  | _ => none
+
+/-! ### alias expansion of `_equipment_from_json` (json_io.py:576-611) -/
+
+/-- a list of strings -/
+def strList : List J → PyR (List String)
+  | [] => pure []
+  | .str s :: t => do return s :: (← strList t)
+  | _ :: _ => typeError "alias is not a string"
+
+/-- `entry['other_name'] + [subkey]` -/
+def aliasNames (entry : Dict) : PyR (List String) := do
+  let sub := match entry.get? "type_variety" with
+    | some (.str s) => s
+    | _ => "default"
+  let names ← strList (← asArr (← entry.get "other_name"))
+  return names ++ [sub]
+
+/-- the entries built for one library entry: (key in the library, kwargs given to the constructor).
+    Same code for Edfa and Transceiver since the F4 repair: a deep copy per alias, `type_variety`
+    set to the alias on the copy, `other_name` removed. -/
+def expandAliases (entry : Dict) : PyR (List (String × Dict)) :=
+  if !entry.has "other_name" then
+    let sub := match entry.get? "type_variety" with
+      | some (.str s) => s
+      | _ => "default"
+    pure [(sub, entry)]
+  else do
+    let names ← aliasNames entry
+    return names.map (fun n => (n, (entry.set "type_variety" (.str n)).erase "other_name"))
+
+/-- the Transceiver code before the repair (F4): `entry['type_variety'] = other_name` was applied to
+    the ORIGINAL entry after the copy had been taken -/
+def expandAliasesF4 (entry : Dict) : PyR (List (String × Dict)) :=
+  if !entry.has "other_name" then
+    let sub := match entry.get? "type_variety" with
+      | some (.str s) => s
+      | _ => "default"
+    pure [(sub, entry)]
+  else do
+    let names ← aliasNames entry
+    let step (st : Dict × List (String × Dict)) (n : String) : Dict × List (String × Dict) :=
+      let copy := st.1.erase "other_name"
+      (st.1.set "type_variety" (.str n), st.2 ++ [(n, copy)])
+    return (names.foldl step (entry, [])).2
+
+/-- mode aliases of `Transceiver.__init__`: every `other_name` of a mode gives a copy of the mode whose
+    `format` is that name (appended after all declared modes), `other_name` removed everywhere -/
+def expandModes (modes : List Dict) : PyR (List Dict) := do
+  let extra ← modes.mapM (fun m =>
+    match m.get? "other_name" with
+    | none => pure []
+    | some oj => do
+      let others ← asArr oj
+      return others.map (fun o => (m.erase "other_name").set "format" o))
+  return modes.map (fun m => m.erase "other_name") ++ extra.flatten
+
+end Gnpy.Yang
